@@ -271,7 +271,25 @@ AskStatus(k) == /\ last' = <<"AskStatus", k, IF st[k] \in {"absent", "created"} 
 GetUnknown(k) == /\ st[k] = "absent" /\ last' = <<"Get", k, "error">> /\ last # <<"Get", k, "error">> /\ AllVarsUnchanged
 CloseUnknown(k) == /\ st[k] = "absent" /\ last' = <<"CloseWrite", k, "error">> /\ last # <<"CloseWrite", k, "error">> /\ AllVarsUnchanged
 
-Next ==
+\* Manager.atexit (the shm server is told to shut down): every dataset that still has a segment is unlinked, whatever its
+\* status and whoever still reads it (C05: no shared-memory segment is left behind); page files go with the scratch directory
+AtExit ==
+  /\ tainted' = tainted \cup {"exited"}
+  /\ seg' = [k \in Key |-> IF st[k] \in {"absent", "on_disk"} THEN seg[k] ELSE None]
+  /\ st' = [k \in Key |-> IF st[k] \notin {"absent", "on_disk"} /\ seg[k] # None THEN "absent" ELSE st[k]]
+  /\ fresh' = [k \in Key |-> IF st'[k] = "absent" THEN 0 ELSE fresh[k]]
+  /\ stale' = [k \in Key |-> IF st'[k] = "absent" THEN 0 ELSE stale[k]]
+  /\ cstale' = [k \in Key |-> IF st'[k] = "absent" THEN FALSE ELSE cstale[k]]
+  /\ reads' = [k \in Key |-> IF st'[k] = "absent" THEN 0 ELSE reads[k]]
+  /\ delayed' = [k \in Key |-> IF st'[k] = "absent" THEN FALSE ELSE delayed[k]]
+  /\ file' = [k \in Key |-> None]
+  /\ last' = <<"AtExit">>
+  /\ UNCHANGED <<ord, lastRead, clock, free, lockAll, count, jobs, content>>
+Running == "exited" \notin tainted
+ExitLeavesNoSegment == ~Running => \A k \in Key : seg[k] = None \/ st[k] \in {"absent", "on_disk"}
+
+NextRunning ==
+  \/ AtExit
   \/ AskFree
   \/ \E k \in Key : AskStatus(k)
   \/ \E k \in Key : GetUnknown(k)
@@ -285,6 +303,7 @@ Next ==
   \/ \E j \in jobs, ok \in BOOLEAN : OutHalf1(j, ok)
   \/ \E j \in jobs : OutHalf2(j)
   \/ \E j \in jobs, ok \in BOOLEAN : InDone(j, ok)
+Next == Running /\ NextRunning
 Spec == Init /\ [][Next]_vars
 FairSpec == Spec /\ WF_vars(\E j \in jobs : OutHalf1(j, TRUE)) /\ WF_vars(\E j \in jobs : OutHalf2(j))
                  /\ WF_vars(\E j \in jobs : InDone(j, TRUE))
